@@ -213,6 +213,33 @@ func (w *World) Fail(sig, format string, a ...any) {
 
 func (w *World) Hit(probe string) { w.Probe[probe]++ }
 
+// ModelInconsistent: the model's own forest is not a forest (an issuer alias that no entity has, two
+// entities with one alias, a cycle). Profiles whose worlds are meant to be runnable call this before
+// they report a failed run: such a world is the generator's mistake (harness trouble, exit 2).
+func (w *World) ModelInconsistent() string {
+	seen := map[string]string{}
+	for _, e := range w.Entities() {
+		if o, dup := seen[e.EffAlias()]; dup {
+			return "alias " + e.EffAlias() + " used by " + o + " and " + e.ID
+		}
+		seen[e.EffAlias()] = e.ID
+	}
+	for _, e := range w.Entities() {
+		steps := 0
+		for c := e; c.Issuer != ""; steps++ {
+			n := w.EntByAlias(c.Issuer)
+			if n == nil {
+				return c.ID + " names issuer " + c.Issuer + ", which no entity has"
+			}
+			if steps > len(w.Order) {
+				return "issuer cycle through " + e.ID
+			}
+			c = n
+		}
+	}
+	return ""
+}
+
 func (w *World) EntByAlias(a string) *EntitySpec {
 	for _, id := range w.Order {
 		if e := w.Ents[id]; e != nil && e.EffAlias() == a {
